@@ -400,6 +400,9 @@ def run(ctx):
                   key=('X5', 'lifetime-state'), site=ctx.site(rk, n.ast))
 
     # ---------------------------------------------------------------- X6
+    # giving up (X3) ends in DELETED and the sweep below removes the entry with its kernel SAs: that removal is complete
+    from .c10 import kernel_teardown
+    kernel_teardown(ctx, esc, 'X6')
     ml = ctx.func('ikesacontroller.IkeSaController.main_loop')
     gm = esc.add_exception_edges(ml)
     loops = [n for n in walk_no_nested(ml.node) if isinstance(n, ast.While)]
